@@ -228,22 +228,25 @@ class ShelxlRefine():
             for line in p.stdout.readlines():
                 # output only the most importand things from shelxl:
                 self.pretty_shx_output(line)
-        lstfile = Path(f'{self.resfile_name}.lst')
-        if lstfile.exists() and lstfile.is_file():
-            self.check_refinement_results(lstfile.read_text('latin1').splitlines(keepends=False))
-        # Go back to the path before
-        os.chdir(current_path)
         if p.returncode != 0:
             status = False
         if not os.path.exists(resfile) or os.stat(resfile).st_size < 10:
             # status is False if shelx was unsecessful
             status = False
         if not status:
+            # Go back to the path before
+            os.chdir(current_path)
             print(sep_line)
             print('\nError: SHELXL terminated unexpectedly.')
             print('Check for errors in your SHELX input file!\n')
             self.restore_shx_file()
             sys.exit()
+        # The listing file is only of interest after a successful run (and must not get in the way of the restore):
+        lstfile = Path(f'{self.resfile_name}.lst')
+        if lstfile.exists() and lstfile.is_file():
+            self.check_refinement_results(lstfile.read_text('latin1').splitlines(keepends=False))
+        # Go back to the path before
+        os.chdir(current_path)
 
     def check_refinement_results(self, list_file):
         """
